@@ -30,7 +30,7 @@ func init() {
 					"mlink.List: 20-60 edits through a population of 4-10 cursors obtained by At/Last/End/Find and moved by Next; Push/Add/Set/Remove/Truncate at any position incl. end-of-list, list Clear; after EVERY edit every cursor is re-checked (Get, AtEnd vs the model) and stale cursors are probed with every method: each must panic \"invalid cursor\" and leave Each unchanged (each probe is announced so that a hang is pinned to it). " +
 					"ring: exhaustive Join over every pair of elements of every configuration of <= 7 elements in <= 2 rings (same ring at every distance, different rings, singletons) and random Of/New/Join/Pop histories over a pool of nodes; after every op a bounded structural walk (Next/Prev mutually inverse, cycles close at their length), the cycles compared with the documented result, At/Peek for every offset |n| != len in [-len-1,len+1], Len, Each with early stop. " +
 					"distinct = hash of the history; non-trivial = list history that created at least one stale cursor / ring case whose Join changed the cycles",
-				Required:     []string{"stack_steps", "queue_steps", "queue_add_after_pop_to_empty", "list_edits", "stale_probes", "stale_truncate_probes", "truncate_then_add_at_end", "set_at_end", "ring_join_same_ring", "ring_join_different_rings", "ring_join_noop", "ring_pops", "ring_exhaustive_cases"},
+				Required:     []string{"stack_steps", "queue_steps", "queue_add_after_pop_to_empty", "list_edits", "stale_probes", "stale_truncate_probes", "truncate_then_add_at_end", "set_at_end", "ring_join_same_ring", "ring_join_different_rings", "ring_join_noop", "ring_pops", "ring_exhaustive_cases", "large_histories"},
 				Exhaustive:   true,
 				Assumptions:  []string{"ring.At(n)/Peek(n) for |n| == Len is not constrained (doc comment and code disagree; the property is silent)", "Cursor.Add with no values is a no-op and is not used as a stale probe"},
 				CoverPkgs:    []string{"github.com/creachadair/mds/stack", "github.com/creachadair/mds/mlink", "github.com/creachadair/mds/ring"},
@@ -942,6 +942,129 @@ func c10ringMisc(c *fw.Ctx) {
 	}
 }
 
+// c10large: stacks and linked queues that grow to several thousand elements and
+// shrink again (buffer-management thresholds), with constant-time observations
+// on every step and the full comparison every 211 steps and at the turning points.
+func c10large(c *fw.Ctx, r *rand.Rand) {
+	n := []int{3000, 4100, 5000, 8200, 12000}[r.IntN(5)]
+	st := stack.New[int]()
+	q := mlink.NewQueue[int]()
+	var sref, qref []int
+	var qhead int
+	data := map[string]any{"type": "stack.Stack / mlink.Queue", "scenario": fmt.Sprintf("grow to %d elements, shrink to a few, regrow, drain", n)}
+	step := 0
+	full := func(what string) bool {
+		rev := make([]int, len(sref))
+		for i := range sref {
+			rev[i] = sref[len(sref)-1-i]
+		}
+		if got := st.Slice(); !equalInts(got, rev) {
+			c.Fail(data, "%s (step %d): stack Slice differs from the reference at length %d", what, step, len(sref))
+			return false
+		}
+		var each []int
+		q.Each(func(v int) bool { each = append(each, v); return len(each) <= len(qref)-qhead+2 })
+		if !equalInts(each, qref[qhead:]) {
+			c.Fail(data, "%s (step %d): queue Each differs from the reference at length %d", what, step, len(qref)-qhead)
+			return false
+		}
+		return true
+	}
+	quick := func() bool {
+		step++
+		c.Step()
+		top := 0
+		if len(sref) > 0 {
+			top = sref[len(sref)-1]
+		}
+		if st.Len() != len(sref) || st.Top() != top {
+			c.Fail(data, "step %d: stack Len=%d Top=%d want %d, %d", step, st.Len(), st.Top(), len(sref), top)
+			return false
+		}
+		if len(sref) > 2 {
+			k := step % len(sref)
+			if v, ok := st.Peek(k); !ok || v != sref[len(sref)-1-k] {
+				c.Fail(data, "step %d: stack Peek(%d)=(%d,%v) want %d", step, k, v, ok, sref[len(sref)-1-k])
+				return false
+			}
+		}
+		front := 0
+		if len(qref) > qhead {
+			front = qref[qhead]
+		}
+		if q.Len() != len(qref)-qhead || q.Front() != front {
+			c.Fail(data, "step %d: queue Len=%d Front=%d want %d, %d", step, q.Len(), q.Front(), len(qref)-qhead, front)
+			return false
+		}
+		if step%211 == 0 {
+			return full("periodic check")
+		}
+		return true
+	}
+	push := func(v int) bool {
+		st.Push(v)
+		sref = append(sref, v)
+		q.Add(v)
+		qref = append(qref, v)
+		return quick()
+	}
+	pop := func() bool {
+		gv, gok := st.Pop()
+		wok := len(sref) > 0
+		wv := 0
+		if wok {
+			wv = sref[len(sref)-1]
+			sref = sref[:len(sref)-1]
+		}
+		qv, qok := q.Pop()
+		wqok := len(qref) > qhead
+		wq := 0
+		if wqok {
+			wq = qref[qhead]
+			qhead++
+		}
+		if gok != wok || gv != wv || qok != wqok || qv != wq {
+			c.Fail(data, "step %d: stack Pop=(%d,%v) want (%d,%v); queue Pop=(%d,%v) want (%d,%v)", step, gv, gok, wv, wok, qv, qok, wq, wqok)
+			return false
+		}
+		return quick()
+	}
+	v := 0
+	for i := 0; i < n; i++ {
+		v++
+		if !push(v) {
+			return
+		}
+	}
+	if !full("at the peak") {
+		return
+	}
+	for len(sref) > 3 {
+		if !pop() {
+			return
+		}
+		if len(sref)%1024 == 0 && !full("while shrinking") {
+			return
+		}
+	}
+	if !full("after shrinking") {
+		return
+	}
+	for i := 0; i < n/3; i++ {
+		v++
+		if !push(v) {
+			return
+		}
+	}
+	for len(sref) > 0 {
+		if !pop() {
+			return
+		}
+	}
+	full("after the final drain")
+	c.Add("large_histories", 1)
+}
+
 func runC10(c *fw.Ctx) {
 	idx := 0
 	// exhaustive ring configurations, spread over blocks
@@ -973,6 +1096,7 @@ func runC10(c *fw.Ctx) {
 		{"queue", c.Pick(300, 4000), c10queue},
 		{"list", c.Pick(6000, 60000), c10listCase},
 		{"ring", c.Pick(3000, 30000), c10ringRandom},
+		{"large", c.Pick(2, 12), c10large},
 	}
 	for _, g := range gens {
 		for k := 0; k < g.n; k++ {
